@@ -506,3 +506,75 @@ def note_event_dataflow(i0: int, u0: int, i1: int, u1: int, tick: int, R: int, t
     s = sp_calls[0]
     ok = ok and s[0] == tick and s[1] is sp_events and 0 <= s[2] and s[2] <= spc_in
     return done(ok)
+
+
+# ---------------------------------------------------------------------------------------------
+# C02: all 32 lane subsets (up to five lane lines at one tick), any line order, any flags
+# ---------------------------------------------------------------------------------------------
+
+
+def note_subsets(g: bool, r: bool, y: bool, b: bool, o: bool, tap: bool, forced: bool, rev: bool, rot: int,
+                 tick: int) -> bool:
+    """
+    pre: 0 <= rot <= 4 and tick >= 0
+    post: _
+    """
+    lanes = [g, r, y, b, o]
+    idxs = [i for i in range(5) if lanes[i]]
+    if not idxs:
+        idxs = [7]                   # a lone open-note line
+    if rev:
+        idxs = idxs[::-1]
+    k = rot % len(idxs)
+    idxs = idxs[k:] + idxs[:k]
+    if idxs[0] != 7:
+        if tap:
+            idxs.insert(1, 6)
+        if forced:
+            idxs.append(5)
+    elif tap:
+        idxs.append(6)
+    datas = [PD(tick=tick, note_track_index=NTI_LIST[i], sustain=0) for i in idxs]
+    got = Note.from_parsed_datas(datas)
+    want = tuple(1 if lanes[i] else 0 for i in range(5))
+    ok = isinstance(got, Note) and tuple(got.value) == want
+    if want == (0, 0, 0, 0, 0):
+        ok = ok and got is Note.OPEN
+    return done(ok)
+
+
+def sustain_subsets(g: bool, r: bool, y: bool, b: bool, o: bool, base: int, odd: int, delta: int, rev: bool,
+                    tick: int) -> bool:
+    """
+    pre: base >= 0 and delta >= 0 and 0 <= odd <= 5 and tick >= 0
+    pre: g or r or y or b or o
+    post: _
+    """
+    # every lane subset; all lanes share `base` except lane `odd` (if active; odd == 5: none) which is
+    # base + delta - so equal / one-different / (delta == 0) equal-again are all solver cases
+    lanes = [g, r, y, b, o]
+    idxs = [i for i in range(5) if lanes[i]]
+    if rev:
+        idxs = idxs[::-1]
+    lens = {i: (base + delta if i == odd else base) for i in idxs}
+    datas = [PD(tick=tick, note_track_index=NTI_LIST[i], sustain=lens[i]) for i in idxs]
+    datas.append(PD(tick=tick, note_track_index=NTI_LIST[6], sustain=0))      # a flag line never contributes
+    with H.patched(*H.unwrap_caches()):
+        got = I.complex_sustain_from_parsed_datas(datas)
+    differ = odd in lens and delta > 0 and len(idxs) > 1
+    if not differ:
+        one = lens[idxs[0]]
+        ok = (not isinstance(got, tuple)) and got == one
+        mx = one
+    else:
+        ok = isinstance(got, tuple) and len(got) == 5
+        if not ok:
+            return done(False)
+        for i in range(5):
+            if i in lens:
+                ok = ok and got[i] is not None and got[i] == lens[i]
+            else:
+                ok = ok and got[i] is None
+        mx = base + delta
+    ok = ok and NoteEvent._longest_sustain(got) == mx
+    return done(ok)
